@@ -242,6 +242,23 @@ def grades_or_curves(ctx, S, vec, pts, val, R):
         has = any(_same(ctx, an, x, curv.t) for x in walk(coeff) if x[0] == 'div')
         ctx.check(has, R, k + '|curvature', 'the coefficient is a function of |−π + ((Δheading + π) mod 2π)| / Δoffset (wrap-around headings included)',
                   'no sub-term equal to the wrapped heading-change rate in %s' % show(coeff, an.names)[:240], ctx.where(S['b'], st[0][2]))
+        # the coefficient is the documented piecewise polynomial of that curvature in the train's three curve coefficients:
+        # c0·κ below one degree per 100 ft, c0·1° + c1·(κ − 1°) + c2·(κ − 1°)² above (each coefficient in its own term)
+        import math
+        one_deg = None
+        if has and coeff[0] == 'gamma' and coeff[1][0] in ('lt', 'le', 'gt', 'ge'):
+            for x in coeff[1][1:]:
+                if x[0] == 'num' and abs(float(x[1]) - math.pi / 180.0 / 30.48) < 1e-12:
+                    one_deg = x
+        if one_deg is None:
+            ctx.unproved(R, k + '|polynomial', 'the coefficient is not selected by comparing the curvature with one degree per 100 ft: %s' % show(coeff, an.names)[:200], ctx.where(S['b'], st[0][2]))
+        else:
+            def cc(n):
+                return T(('pre', P('train_params') + (('f', 'curve_coeff_%d' % n),)))
+            d1 = T(one_deg)
+            want = gamma(curv.lt(d1), cc(0) * curv, cc(0) * d1 + cc(1) * (curv - d1) + cc(2) * (curv - d1) * (curv - d1))
+            prove(ctx, R, k + '|polynomial', an, 'eq', T(coeff), want, assume=A, where=ctx.where(S['b'], st[0][2]),
+                  note='curve resistance coefficient = c0·κ below 1°/100 ft, else c0·1° + c1·(κ−1°) + c2·(κ−1°)²')
         leaves = {x[1][len(link):][0][1] if x[1][:len(link)] == link else ('train_params' if x[1][:2] == P('train_params') else show(x, an.names)[:40])
                   for x in walk(coeff) if x[0] == 'pre' and x[1][0] != S['lp']}
         ctx.check(leaves <= {pts, 'train_params'}, R, k + '|inputs', 'the coefficient depends only on the two headings, their offsets and the train\'s curve coefficients',
